@@ -801,9 +801,6 @@ class TrajectoryStore:
             output_store, input_stores, input_stores_pattern, input_stores_index_range
         )
 
-        # Create output directory.
-        os.mkdir(output_store)
-
         # Collect metadata and check that the field sets match.
         store_data = []
         fieldset_names: set[str] | None = None
@@ -826,7 +823,9 @@ class TrajectoryStore:
         if indexable != any(g is not None for g in index_groups):
             raise ValueError('Either all or none of the input stores must be indexable')
 
-        # Move input stores to output directory.
+        # Create output directory (only once all checks have passed, so that a
+        # refused merge leaves nothing behind) and move input stores into it.
+        os.mkdir(output_store)
         for input_store in input_stores:
             p = Path(input_store)
             dest = Path(output_store) / p.name
